@@ -71,7 +71,7 @@ attack = st.one_of(
     st.fixed_dictionaries({"cls": st.just("late-hello"), "kind": st.sampled_from(["other-session", "own", "attacker-signed", "own-bytes-flipped", "client-hello-to-server", "client-hello-to-server"]),
                            "seq_ahead": st.sampled_from([1, 5, 40, 300]), "msg_ahead": st.sampled_from([1, 40, 300, 2000])}),
     st.fixed_dictionaries({"cls": st.just("schedule"), "ops": st.lists(st.tuples(st.sampled_from([1, 2, 3]), st.sampled_from(
-        ["drop", "dup-now", "dup-late", "dup-very-late", "delay", "delay-past-connect-timeout"])).map(list), min_size=1, max_size=3)}),
+        ["drop", "dup-now", "dup-1tick", "dup-2ticks", "dup-3ticks", "dup-late", "dup-very-late", "delay", "delay-past-connect-timeout"])).map(list), min_size=1, max_size=3)}),
 )
 
 cases = st.fixed_dictionaries({
@@ -199,6 +199,9 @@ class Mitm(object):
                     out = []
                 elif op == "dup-now":
                     out = out + [0.002]
+                elif op in ("dup-1tick", "dup-2ticks", "dup-3ticks"):
+                    # the copy arrives while the handshake is still in progress: one, two or three loop passes after the original
+                    out = out + [0.002 + 0.017 * int(op[4])]
                 elif op == "dup-late":
                     out = out + [0.35]
                 elif op == "dup-very-late":
